@@ -198,4 +198,40 @@ set_option maxRecDepth 100000 in
 example : (RouterG.matchReq (towerTOps exT) (RouterG.build (towerTOps exT) [exR3]) exQ3).map (·.id)
     = ["r3"] := by decide +kernel
 
+/-! ### The case flags (reviewer's C01-3)
+
+`sat` has no case flag: the flags act when rule and request are READ (`Rule::host/path_and_query(ignore_case)`,
+`Request::from_config`), i.e. in `mkRoute` / `mkReq`.  For static hosts and paths the effect is stated here; with
+`match_exact` (whose `sat` contains `hostOk` / `pathOk`) it is a statement about the answers of the router.  For
+marker hosts / paths the flag is the tree's `ignore_case` (C08 / C09); for header values see `Rio.C01.header_value_kinds`. -/
+
+/-- A rule host without markers (`toks.all isLit`): under `ignore_host_case` the host trigger accepts exactly the
+request hosts that are equal to it up to (ASCII) case – `A.com` is triggered by `a.COM`. -/
+theorem host_case_insensitive (E : Env) (cfg : Cfg) (d : RuleDesc) (qd : ReqDesc) (h h' : String)
+    (hflag : cfg.ignoreHostCase = true) (hd : d.host = some h) (hq : qd.host = some h')
+    (hlit : (tokenize d.markers h.toList).all Tok.isLit = true) (hne : h.toLower ≠ "") :
+    hostOk E (mkRoute cfg d) (mkReq cfg qd) = true ↔ h'.toLower = h.toLower := by
+  simp only [hostOk, mkRoute, mkReq, hd, hq, Option.map_some, sodOf, hlit, if_true, hflag]
+  simp [hne]
+
+/-- Without the flag the texts must be equal as written. -/
+theorem host_case_sensitive (E : Env) (cfg : Cfg) (d : RuleDesc) (qd : ReqDesc) (h h' : String)
+    (hflag : cfg.ignoreHostCase = false) (hd : d.host = some h) (hq : qd.host = some h')
+    (hlit : (tokenize d.markers h.toList).all Tok.isLit = true) (hne : h ≠ "") :
+    hostOk E (mkRoute cfg d) (mkReq cfg qd) = true ↔ h' = h := by
+  simp only [hostOk, mkRoute, mkReq, hd, hq, Option.map_some, sodOf, hlit, if_true, hflag]
+  simp [hne]
+
+/-- A rule path without markers: under `ignore_path_and_query_case` the path trigger accepts exactly the request
+paths equal to it up to (ASCII) case; without the flag, equal as written. -/
+theorem path_case_insensitive (E : Env) (cfg : Cfg) (d : RuleDesc) (qd : ReqDesc)
+    (hflag : cfg.ignorePathCase = true) (hlit : (tokenize d.markers d.path.toList).all Tok.isLit = true) :
+    pathOk E (mkRoute cfg d) (mkReq cfg qd) = true ↔ d.path.toLower = qd.path.toLower := by
+  simp [pathOk, mkRoute, mkReq, sodOf, hlit, hflag]
+
+theorem path_case_sensitive (E : Env) (cfg : Cfg) (d : RuleDesc) (qd : ReqDesc)
+    (hflag : cfg.ignorePathCase = false) (hlit : (tokenize d.markers d.path.toList).all Tok.isLit = true) :
+    pathOk E (mkRoute cfg d) (mkReq cfg qd) = true ↔ d.path = qd.path := by
+  simp [pathOk, mkRoute, mkReq, sodOf, hlit, hflag]
+
 end Rio.C01
